@@ -1,12 +1,16 @@
 (** C08 - Alternative arc specifications equal the analytic circle.
 
-    Model: Model/C08_Arcs.v (transcribed from angle.py, origin.py, arc_base.py, functions.py; tied to the
-    working tree by the interval correspondence of harness/props/C08.py on every run).
+    Model: Model/C08_Arcs.v (transcribed from angle.py, origin.py, arc_base.py, functions.py).  Tie: the vector
+    code - arc_from_theta, arc_from_origin, arc_mid / divide_arc, arc_length_3point, unit_vector, norm - is translated
+    from the working tree on every run (harness/translate_np.py -> Gen/C08/Source.v) and PROVED equal to the model for
+    all arguments ([C08_source_is_model], Proofs/C08_SourceEq.v); ArcEdgeBase.length / is_valid and polyline_length, and
+    the translator's reading of float arithmetic, by the interval correspondence of harness/props/C08.py.
     Specification: [spec_point p1 p2 th a lam] = centre + rotation about the unit axis [a] by [th*lam] of
     (p1 - centre), the OpenFOAM definition of  arc v1 v2 <angle> (axis). *)
 From Coq Require Import Reals Lra List.
 From CB Require Import Base.Vec3 Model.C08_Arcs Proofs.C08_Theta Proofs.C08_Chord Proofs.C08_ThreePoint
   Proofs.C08_Circle Proofs.C08_Length Proofs.C08_Reflex.
+From CB Require Import Gen.C08.Source Proofs.C08_SourceEq.
 Import ListNotations.
 Open Scope R_scope.
 
@@ -94,6 +98,50 @@ Definition C08_three_point_centre_stmt : Prop :=
     norm2 (vsub pb c) = norm2 (vsub ps c) /\ norm2 (vsub pe c) = norm2 (vsub ps c)
     /\ dot (vsub c ps) (cross (vsub pb ps) (vsub pe ps)) = 0.
 
+(** ** the model is the source.  [src_f] (Gen/C08/Source.v) is the translation of the python function [f] of the
+    working tree; [Some y]: read in real arithmetic the call returns y; [None]: it raises, or divides by zero / leaves
+    the domain of sqrt, arccos (numpy: nan / inf with a RuntimeWarning) - the hypotheses below are exactly the
+    conditions under which that does not happen.  [tol] is constants.TOL; [true] is adjust_center (OriginEdge).
+    [origin_dom] (Proofs/C08_SourceEq.v): the origin is not the middle of the chord (branch that keeps it) / the radius
+    exceeds half the chord and origin and end points are not collinear (branches that move the centre); it holds
+    whenever the origin is not on the line through the end points. *)
+Definition C08_source_is_model_stmt : Prop :=
+  (forall tol v, src_norm tol v = Some (norm v))
+  /\ (forall tol v, v <> vzero -> src_unit_vector tol v = Some (vunit v))
+  /\ (forall tol, src_unit_vector tol vzero = None)
+  /\ (forall tol ax c p1 p2, secant_mid p1 p2 <> c ->
+        src_arc_mid tol ax c p1 p2 = Some (arc_mid c p1 p2) /\ src_divide_arc tol ax c p1 p2 = Some [arc_mid c p1 p2])
+  /\ (forall tol p1 p2 th a, 0 < Rabs th < 2 * PI -> cross (vsub p2 p1) a <> vzero ->
+        src_arc_from_theta tol p1 p2 th a = Some (arc_from_theta p1 p2 th a))
+  /\ (forall tol p1 p2 th a, ~ 0 < Rabs th < 2 * PI -> src_arc_from_theta tol p1 p2 th a = None)
+  /\ (forall tol p1 p3 c mult, origin_dom tol p1 p3 c mult ->
+        src_arc_from_origin tol p1 p3 c true mult = Some (arc_from_origin tol p1 p3 c mult))
+  /\ (forall tol p1 p3 c mult, cross (vsub p1 c) (vsub p3 c) <> vzero -> origin_dom tol p1 p3 c mult)
+  /\ (forall tol ps pb pe, / 1000000000000000000 <= Rabs (a3_denom ps pb pe) ->
+        src_arc_length_3point tol ps pb pe = Some (arc_length_3point ps pb pe))
+  /\ (forall tol ps pb pe, Rabs (a3_denom ps pb pe) < / 1000000000000000000 -> src_arc_length_3point tol ps pb pe = None).
+
+(** ** hence the theorems of this file are theorems about the translated source: the third point of an angle/axis
+    arc, its length (unless arc_length_3point rejects the triple: |denominator| < 1e-18), the origin arc on a circle and
+    point-wise, the three-point length *)
+Definition C08_on_source_stmt : Prop :=
+  (forall tol p1 p2 th a, theta_wf p1 p2 th a ->
+     src_arc_from_theta tol p1 p2 th a = Some (spec_point p1 p2 th a (/ 2))
+     /\ (/ 1000000000000000000 <= Rabs (a3_denom p1 (spec_point p1 p2 th a (/ 2)) p2) ->
+         src_arc_length_3point tol p1 (spec_point p1 p2 th a (/ 2)) p2 = Some (norm (vsub p1 (spec_centre p1 p2 th a)) * Rabs th)))
+  /\ (forall tol c rad u v phi, 0 <= tol -> onb u v -> 0 < rad -> 0 < phi < PI ->
+       src_arc_from_origin tol (cpt c rad u v 0) (cpt c rad u v phi) c true 1 = Some (cpt c rad u v (phi / 2))
+       /\ (/ 1000000000000000000 <= Rabs (a3_denom (cpt c rad u v 0) (cpt c rad u v (phi / 2)) (cpt c rad u v phi)) ->
+           src_arc_length_3point tol (cpt c rad u v 0) (cpt c rad u v (phi / 2)) (cpt c rad u v phi) = Some (rad * phi)))
+  /\ (forall tol c p1 p3, 0 <= tol -> norm2 (vsub p1 c) = norm2 (vsub p3 c) -> vadd (vsub p1 c) (vsub p3 c) <> vzero ->
+       exists m, src_arc_from_origin tol p1 p3 c true 1 = Some m
+         /\ norm2 (vsub m c) = norm2 (vsub p1 c)
+         /\ (exists t, 0 < t /\ vsub m c = vscale t (vadd (vsub p1 c) (vsub p3 c)))
+         /\ norm2 (vsub m p1) = norm2 (vsub m p3))
+  /\ (forall tol c rad u v psi phi, onb u v -> 0 < rad -> 0 < psi -> psi < phi -> phi < 2 * PI -> psi < PI ->
+       / 1000000000000000000 <= Rabs (a3_denom (cpt c rad u v 0) (cpt c rad u v psi) (cpt c rad u v phi)) ->
+       src_arc_length_3point tol (cpt c rad u v 0) (cpt c rad u v psi) (cpt c rad u v phi) = Some (rad * phi)).
+
 Theorem C08_theta_centre : C08_theta_centre_stmt.
 Proof.
   intros p1 p2 th a (Ha & Hd & Hn & Hth). pose proof (sin_half_neq th Hth) as Hs.
@@ -159,6 +207,42 @@ Proof.
   destruct (a3_centre_offset ps pb pe Hd) as (_ & _ & H3). auto.
 Qed.
 
+Theorem C08_source_is_model : C08_source_is_model_stmt.
+Proof.
+  split; [exact src_norm_eq|]. split; [exact src_unit_vector_eq|]. split; [exact src_unit_vector_zero|].
+  split; [intros tol ax c p1 p2 H; split; [exact (src_arc_mid_eq tol ax c p1 p2 H) | exact (src_divide_arc_eq tol ax c p1 p2 H)]|].
+  split; [exact src_arc_from_theta_eq|]. split; [exact src_arc_from_theta_guard|].
+  split; [exact src_arc_from_origin_eq|]. split; [exact origin_dom_geometric|].
+  split; [exact src_arc_length_3point_eq | exact src_arc_length_3point_guard].
+Qed.
+
+Theorem C08_on_source : C08_on_source_stmt.
+Proof.
+  split; [|split; [|split]].
+  - intros tol p1 p2 th a Hwf. pose proof Hwf as (Ha & Hd & Hn & Hth).
+    assert (E : src_arc_from_theta tol p1 p2 th a = Some (spec_point p1 p2 th a (/ 2))).
+    { rewrite (src_arc_from_theta_eq tol p1 p2 th a Hth (theta_cross_nonzero p1 p2 a Ha Hd Hn)).
+      f_equal. exact (C08_theta_mid p1 p2 th a Hwf). }
+    split; [exact E|]. intros Hden. rewrite (src_arc_length_3point_eq tol _ _ _ Hden). f_equal.
+    rewrite <- (C08_theta_mid p1 p2 th a Hwf). exact (C08_theta_length p1 p2 th a Hwf).
+  - intros tol c rad u v phi Ht H Hr Hphi. destruct (C08_origin tol c rad u v phi Ht H Hr Hphi) as [Em El].
+    assert (D : origin_dom tol (cpt c rad u v 0) (cpt c rad u v phi) c 1).
+    { apply origin_dom_equidistant; [exact Ht | rewrite !norm2_cpt by exact H; reflexivity
+                                    | exact (circle_ends_not_opposite c rad u v phi H Hr Hphi)]. }
+    split.
+    + rewrite (src_arc_from_origin_eq tol _ _ _ _ D). f_equal. exact Em.
+    + intros Hden. rewrite (src_arc_length_3point_eq tol _ _ _ Hden). f_equal. rewrite <- Em. exact El.
+  - intros tol c p1 p3 Ht He Hs. exists (arc_from_origin tol p1 p3 c 1). split.
+    + exact (src_arc_from_origin_eq tol p1 p3 c 1 (origin_dom_equidistant tol p1 p3 c Ht He Hs)).
+    + exact (C08_origin_pointwise tol c p1 p3 Ht He Hs).
+  - intros tol c rad u v psi phi H Hr H1 H2 H3 H4 Hden. rewrite (src_arc_length_3point_eq tol _ _ _ Hden). f_equal.
+    exact (C08_three_point_length_partial c rad u v psi phi H Hr H1 H2 H3 H4).
+Qed.
+
+(** the domain of the origin arc is inhabited (flatness 2, quarter circle about the origin) *)
+Example origin_dom_inhabited : origin_dom (/ 10000000) (1, 0, 0) (0, 1, 0) (0, 0, 0) 2.
+Proof. exact origin_dom_example. Qed.
+
 (** the hypotheses are satisfiable *)
 Example theta_wf_example : theta_wf (0, 0, 0) (1, 0, 0) 3 (0, 0, 1).
 Proof.
@@ -181,3 +265,5 @@ Print Assumptions C08_three_point_late.
 Print Assumptions C08_three_point_length_refuted.
 Print Assumptions C08_chord_bound.
 Print Assumptions C08_three_point_centre.
+Print Assumptions C08_source_is_model.
+Print Assumptions C08_on_source.
